@@ -159,6 +159,7 @@ def main():
             del t, jar
             for n in range(1, min(n1, 40) + 1):
                 t, jar = stored()
+                oids0 = {oid for oid, _ in jar.cache.items()}
                 arm(n)
                 rr = []
                 out = guarded(lambda: rr.append(apply(t, emb, tr['act'], 0)))
@@ -168,6 +169,11 @@ def main():
                 w2 = dict(fam=fam, is_set=is_set, sizes=[job['leaf'], job['internal']], act=tr['act'], op='stored-insert', fail_at=n, allocations=n1)
                 if out != 'MemoryError':
                     mism.append(dict(w2, kind='no-MemoryError', real=out))
+                gone = oids0 - {oid for oid, _ in jar.cache.items()}
+                if gone:
+                    # an insert drops no node: a stored node that left the cache was deallocated although the tree refers to it
+                    mism.append(dict(w2, kind='stored-node-deallocated', real=sorted(int.from_bytes(o, 'big') for o in gone)))
+                    continue
                 try:
                     after_c = contents(P.proj(t, emb, is_set))
                 except Exception as e:
